@@ -26,7 +26,17 @@ let zs l = OLst.map z_of_string l
 
 let parse toks = match toks with
   | ["fs"; v] -> CFs (cstr v)
-  | ["hdr"; d] -> CHdr (cstr d)
+  | ["hdr"; d] ->
+    let rest n = OStr.sub d n (OStr.length d - n) in
+    let hd = (match d with
+        | "noformat" -> DNoFormat
+        | "badformat" -> DFormat (cstr "xin")
+        | "noversion" -> DNoVersion
+        | "noid" -> DNoId
+        | _ -> if OStr.length d > 4 && OStr.sub d 0 4 = "fmt=" then DFormat (cstr (dec_str (rest 4)))
+               else if OStr.length d > 4 && OStr.sub d 0 4 = "ver=" then DVersion (zs (OStr.split_on_char '.' (rest 4)))
+               else failwith "bad defect") in
+    CHdr (cstr d, hd)
   | ["open"; m; c; f] -> COpen (mode_of m, comp_of c, f = "1")
   | ["blk"; n] -> CContent (cstr "blk", TBlk (cstr n))
   | ["sec"; n] -> CContent (cstr "sec", TSec (cstr n))
